@@ -58,12 +58,27 @@ def shuffle_opts(rng, scn):
 
 def session_scenario(rng, purpose="rewind", allow_spend=True):
     """-> scenario without schedule"""
+    scn = _session_scenario(rng, purpose, allow_spend)
+    d = scn.pop("debug_opt", None)
+    if d and d != "--debug=":
+        scn["opts"] = list(scn["opts"]) + [d]
+    return scn
+
+
+def _session_scenario(rng, purpose="rewind", allow_spend=True):
     fam = rng.weighted([
         (30, "mixed"), (14, "if-heavy"), (8, "alt-heavy"), (8, "codesep"), (8, "sig"), (5, "opcount"), (4, "bigstack"),
         (8, "disabled"), (5, "tiny"), (6 if allow_spend else 0, "dataset"), (24 if allow_spend else 0, "spend"),
         (3, "long-listing"), (4, "pushforms"), (4, "p2sh-plain"),
     ])
     scn = {"family": fam, "opts": [], "stack": [], "spend": None, "observe": True, "tty": [1, 1], "env": {}}
+    if rng.chance(20):
+        # the debug-logging switches are process-global; a session must behave the same with any of them on
+        for a in ("SIGHASH", "SIGNING", "SEGWIT", "TAPROOT"):
+            if rng.chance(40):
+                scn["env"]["DEBUG_" + a] = rng.choice(["1", "1", "0", "x"])
+        if rng.chance(40):
+            scn["debug_opt"] = "--debug=" + ",".join(a for a in ("sighash", "signing", "segwit", "taproot") if rng.chance(50))
     flags_off = []
     if fam == "dataset":
         scn["spend"] = {"dataset": rng.choice(session.DATASETS)}
@@ -210,6 +225,8 @@ def session_scenario(rng, purpose="rewind", allow_spend=True):
     if rng.chance(10):
         scn["opts"].append("--quiet")
     scn["features"] = sorted(g.features)
+    if "huge-item" in g.features:
+        scn["observe"] = False      # a `stack` listing of a 100 KiB item after every step only fills the event log
     return scn
 
 
